@@ -147,7 +147,7 @@ def run(ctx):
                                                extra=["-seed", str(ctx.seed)]), "random orders, larger archives", "sim"))
     else:
         gens.append(("C09_gen_tiny.cfg", dict(workers=4), "every order, archives <= 5 entries", "bfs"))
-        gens.append(("C09_gen_all.cfg", dict(workers=1, simulate="num=1500", depth=200,
+        gens.append(("C09_gen_all.cfg", dict(workers=1, simulate="num=1200", depth=200,
                                              extra=["-seed", str(ctx.seed)]), "random orders, all scenario ids", "sim"))
     for cfg, kw, label, origin in gens:
         g = ctx.tlc("TarImportGen", cfg, timeout=3000, label="generator: " + label, **kw)
